@@ -379,7 +379,20 @@ cat.CAT['beltKRP'].overlap = dict(dest='dest', src='src', aux=['level', 'header'
 
 def run(tier):
     chk = vf.Check(PROP, tier, deadline_s=900 if tier == 'quick' else 3600)
-    jobs = [(f, c, tier) for f, c in fn_cases(tier) if cat.CAT[f].overlap]
+    own = fn_cases(tier)
+    # overlap-tolerant functions declared by the other catalogue modules (e.g. dstuPointCompress / dstuPointRecover): up to 8
+    # of their admissible corpus cases each (evenly spread, first and last included)
+    import corpora
+    named = set(f for f, _ in own)
+    by = {}
+    for f, c in corpora.all_cases('quick'):
+        fn = cat.CAT[f]
+        if fn.overlap and f not in named and getattr(fn, 'impl', None) is None and (fn.ref is None or (fn.ref(c) or {}).get('ret', 0) == 0):
+            by.setdefault(f, []).append((f, c))
+    for f, cs in sorted(by.items()):
+        step = max(1, (len(cs) - 1) // 7)
+        own += cs[::step][:8] + cs[-1:]
+    jobs = [(f, c, tier) for f, c in own if cat.CAT[f].overlap]
     res = vf.pmap(check_fn_case, jobs, case_timeout=600)
     total = 0
     for (f, c, _), r in zip(jobs, res):
